@@ -608,3 +608,8 @@ Example reinit_interleaved_reset_first :
   R st1 = [] /\ heap st1 (cur st1) = [] /\
   exists t, threads st2 1 = Some t /\ cont t = [] /\ tres t = Some [].
 Proof. vm_compute. split; [reflexivity|]. split; [reflexivity|]. eexists. repeat split; reflexivity. Qed.
+
+(* last round: add_exception_view is a plain forward to add_view(exception_only=True) (was a shape pin); the clear mode of
+   Registry._clear_view_lookup_cache is read from its whole body (was additionally pinned) *)
+Lemma facts_excview_forward_clear : add_exception_view_forwards = true /\ clear_mode_registry = Swap /\ clear_mode_fallback = Swap.
+Proof. repeat split; reflexivity. Qed.
